@@ -47,7 +47,8 @@ RejToks == { RejTok(DOver), RejTok(DH \o <<39>>), RejTok(DH \o <<104>>), RejTok(
              RejTok(<<45>> \o DH \o <<39>>),                  \* -2147483648'
              RejTok(<<120>>), RejTok(<<49,120>>), RejTok(<<39>>), RejTok(<<104>>),
              RejTok(<<49,39,39>>), RejTok(<<48,120,49>>), RejTok(<<45,45,49>>), RejTok(<<49,45>>),
-             RejTok(<<49,72>>), RejTok(<<109>>) }
+             RejTok(<<49,72>>), RejTok(<<109>>),
+             RejTok(<<49,32,49>>), RejTok(<<52,32,52,39>>), RejTok(<<49,39,32>>), RejTok(<<49,95,95,48>>), RejTok(<<95,49>>) }
 EmptyTok == RejTok(<<>>)              \* reject when followed by a non-empty token
 EitherToks == { EitherTok(<<43,49>>), EitherTok(<<32,49>>), EitherTok(<<49,95,48>>),
                 EitherTok(<<45,48>>), EitherTok(<<45,48,39>>), EitherTok(<<49,32,39>>) }
